@@ -343,6 +343,15 @@ def check_tree(t):
             return ("trace", "p=%s q=%s expected %s got %s" % (
                 p, q, [x[0] for x in want], [x[0] for x in got])), None
         vec.append(tuple(x[0] for x in want))
+    # a simplified phase body (root = block, as lowering produces) is read by both generators through the library's own
+    # get_statements_in_ast: a result it cannot walk is not a program anybody can execute
+    if t[0] == "B":
+        from dagrt.codegen.dag_ast import get_statements_in_ast
+        try:
+            list(get_statements_in_ast(res))
+        except Exception as e:
+            return ("not-consumable", "the library's own get_statements_in_ast cannot walk the simplified block: "
+                    "%s: %s; result %s" % (type(e).__name__, e, str(res).replace("\n", " | ")[:300])), None
     # feed the result back (it is an input of the same language)
     try:
         res2 = simplify_ast(res)
